@@ -18,6 +18,9 @@ pub fn mt_code(m: &MessageType) -> u8 {
         MessageType::VendorDefinedPCI => 0x7E,
         MessageType::VendorDefinedIANA => 0x7F,
         MessageType::Invalid => 0xFF,
+        // a variant added to the library later: no DSP0239 code known to the harness
+        #[allow(unreachable_patterns)]
+        _ => 0xFD,
     }
 }
 
@@ -29,6 +32,8 @@ pub fn cc_code(c: &CompletionCode) -> u8 {
         CompletionCode::ErrorInvalidLength => 3,
         CompletionCode::ErrorNotReady => 4,
         CompletionCode::ErrorUnsupportedCmd => 5,
+        #[allow(unreachable_patterns)]
+        _ => 0xFD,
     }
 }
 
@@ -41,6 +46,8 @@ pub enum EK {
     InvalidCtlHdr,
     Unsuccessful(u8),
     InvalidPec,
+    /// an error variant the harness does not know (added to the library after the harness was written)
+    Other,
 }
 
 impl EK {
@@ -52,6 +59,7 @@ impl EK {
             EK::InvalidCtlHdr => "InvalidControlHeader".into(),
             EK::Unsuccessful(c) => format!("UnsuccessfulCompletionCode({})", c),
             EK::InvalidPec => "InvalidPEC".into(),
+            EK::Other => "<unknown error variant>".into(),
         }
     }
 }
@@ -66,7 +74,11 @@ pub fn flatten_err(e: &(MessageType, DecodeError)) -> (u8, EK) {
             ControlMessageError::InvalidControlHeader => EK::InvalidCtlHdr,
             ControlMessageError::UnsuccessfulCompletionCode(c) => EK::Unsuccessful(cc_code(c)),
             ControlMessageError::InvalidPEC => EK::InvalidPec,
+            #[allow(unreachable_patterns)]
+            _ => EK::Other,
         },
+        #[allow(unreachable_patterns)]
+        _ => EK::Other,
     };
     (mt, ek)
 }
